@@ -277,17 +277,42 @@ def check(ctx):
         _balanced(ctx, f'{cname}.as_def', f, require_contents=('contents',))
         _balanced(ctx, f'{cname}.as_decl', d, require_contents=())
     # ---- C20.balanced: containers ----------------------------------------------------------------------------------------------------
+    # Struct / Class / Namespace are rendered from an object CONSTRUCTED by their own __init__ (symbolic arguments named after
+    # the parameters): where the keyword, the name and the contents come from - an assignment in __init__, a class attribute,
+    # a base class with hook methods - is the evaluator's business, the rule reads the rendered text only.
+    def constructed(cls: ClassInfo) -> Optional[TStr]:
+        init = prog.lookup_method(cls, '__init__')
+        if init is None:
+            return tmpl(cls, '__str__')
+        args = [ev.param_sym(a.arg, prog.ann_to_type(init.module, a.annotation, init.cls)) for a in init.params()[1:]]
+        del ev.opaque_log[:]
+        obj = ev.construct(cls, args, {}, 1)
+        r = ev.to_str(obj, 1)
+        if ev.opaque_log or not isinstance(r, TStr):
+            run.error('C20.balanced', MOD, f'{cls.name}.__str__', '__str__',
+                      f'rendering of a constructed {cls.name} is not a text template: {sorted(set(ev.opaque_log))[:3]}')
+            return None
+        return r
+
+    def init_params(cls: ClassInfo) -> List[str]:
+        init = prog.lookup_method(cls, '__init__')
+        return [a.arg for a in init.params()[1:]] if init is not None else []
+
+    rendered: Dict[str, TStr] = {}
     for cname, closing in (('Struct', ['}', ';']), ('Class', ['}', ';']), ('Namespace', None), ('AccessSpecifiedSection', None)):
         cls = prog.cls('cpp_gen', cname)
-        t = tmpl(cls, '__str__')
+        t = constructed(cls) if cname != 'AccessSpecifiedSection' else tmpl(cls, '__str__')
         if t is None:
             continue
-        _balanced(ctx, f'{cname}.__str__', t, require_contents=('_contents', 'contents'), closing=closing)
-        if cname == 'Namespace':
+        rendered[cname] = t
+        pnames = init_params(cls)
+        _balanced(ctx, f'{cname}.__str__', t, require_contents=('_contents', 'contents') + tuple(pnames[1:2]), closing=closing)
+        if cname == 'Namespace' and len(pnames) >= 2:
+            nsp, cop = pnames[0], pnames[1]
             for c, v in variants(t):
                 fq = [p for p in v.parts if isinstance(p, FqnS)]
-                named = c.get('truthy(<self._ns_ids.items>)', False)
-                multi = c.get('truthy(<self._contents._lines>)', False)
+                named = c.get(f'truthy(<{nsp}.items>)', c.get('truthy(<self._ns_ids.items>)', False))
+                multi = c.get(f'truthy(<{cop}>)', True) and c.get(f'truthy(<{cop}._lines>)', c.get('truthy(<self._contents._lines>)', False))
                 want = (2 if multi else 1) if named else 0
                 ok = len(fq) == want and len({repr(x) for x in fq}) <= 1
                 raw = repr(v)
@@ -297,32 +322,15 @@ def check(ctx):
                         'namespace opening / closing comment do not name the same identifiers')
     # ---- C20.named: struct/class keyword and name, type description, member variable ------------------------------------------------------
     ev2 = Evaluator(prog, ctx.cg, atomic_classes=('Fqn', 'TemplateArg', 'NamespaceIds'))
-    enum_vals = {}
-    soc = prog.cls('cpp_gen', 'StructOrClass')
-    for st in soc.node.body:
-        if isinstance(st, ast.Assign) and isinstance(st.value, ast.Constant):
-            enum_vals[st.targets[0].id] = st.value.value
-    for cname, member, kw in (('Struct', 'STRUCT', 'struct'), ('Class', 'CLASS', 'class')):
+    for cname, kw in (('Struct', 'struct'), ('Class', 'class')):
         cls = prog.cls('cpp_gen', cname)
-        t = tmpl(cls, '__str__')
-        init = cls.methods.get('__init__')
-        assigned = None
-        if init is not None:
-            for n in iter_own_nodes(init.node):
-                if isinstance(n, ast.Assign) and ast.unparse(n.targets[0]) == 'self._struct_class':
-                    assigned = ast.unparse(n.value)
-        ok_kw = assigned == f'StructOrClass.{member}' and enum_vals.get(member) == kw
-        if cname == 'Class' and init is not None:
-            # the CLASS assignment must come after super().__init__ (which sets STRUCT)
-            order = [ast.unparse(st) for st in init.node.body if isinstance(st, (ast.Expr, ast.Assign))]
-            i_sup = next((i for i, x in enumerate(order) if 'super().__init__' in x), None)
-            i_as = next((i for i, x in enumerate(order) if x.startswith('self._struct_class')), None)
-            ok_kw = ok_kw and i_sup is not None and i_as is not None and i_sup < i_as
-        heads_ok = t is not None and all(
-            [tok_text(x) for x in lex(v)][:3] == ['{self._struct_class.value}', '{self._name}', '{'] for _c, v in variants(t))
-        run.add('C20.named', MOD, f'{cname}', f'{cname}: keyword {assigned} = {enum_vals.get(member)!r}', ok_kw and heads_ok,
-                f'renders `{kw} <name> {{`' if ok_kw and heads_ok else
-                f'{cname} does not render `{kw} <name> {{` (keyword source {assigned}, value {enum_vals.get(member)!r})')
+        t = rendered.get(cname)
+        pn = (init_params(cls) or ['name'])[0]
+        heads = [[tok_text(x) for x in lex(v)][:3] for _c, v in variants(t)] if t is not None else []
+        heads_ok = bool(heads) and all(h == [kw, '{' + pn + '}', '{'] for h in heads)
+        run.add('C20.named', MOD, f'{cname}', f'{cname}: opens with {heads[0] if heads else None}', heads_ok,
+                f'a constructed {cname} renders `{kw} <name> {{`' if heads_ok else
+                f'{cname} does not render `{kw} <name> {{` (a constructed {cname} opens with `{" ".join(heads[0]) if heads else "?"}`)')
     td2 = ev2.eval_entry(prog.lookup_method(prog.cls('cpp_gen', 'TypeDesc'), '__str__'))
     if isinstance(td2, TStr):
         probs = []
